@@ -186,10 +186,16 @@ def build_program(rs):
                 for k, v in _p.items():
                     setattr(self, k, v)
             ns["__init__"] = __init__
-        for fb in c.get("fbs", []):
-            ns[fb["m"]] = _make_feedback(n, fb)
+        inherited_fb = {}
+        for k, fb in enumerate(c.get("fbs", [])):
+            if c.get("fb_on_base") and k == 0:
+                inherited_fb[fb["m"]] = _make_feedback(n, fb)  # the getter is defined on a base class of the component
+            else:
+                ns[fb["m"]] = _make_feedback(n, fb)
         bases = (object,)
-        if c.get("sm"):
+        if inherited_fb:
+            bases = (type(f"FbBase_{n}", (object,), inherited_fb),)
+        if c.get("sm") and not inherited_fb:
             # a magicbot StateMachine as component: execute / on_disable log and then defer to the framework
             def sm_execute(self, _t=f"{n}.execute"):
                 CTX.hit(_t)
@@ -220,15 +226,20 @@ def build_program(rs):
 
     def createObjects(self):
         self.shared = Shared()
+        if rs.get("inst_cfg"):
+            # the loop period and the teleop-in-autonomous switch given per instance instead of on the class
+            self.control_loop_wait_time = rs["P"] / 1e6
+            self.use_teleop_in_autonomous = bool(rs.get("tia"))
         CTX.hit("createObjects")
 
     nbase = rs.get("nbase", 0)
     rns = {
         "__annotations__": {n: comp_classes[n] for n in order[nbase:]},
         "createObjects": createObjects,
-        "control_loop_wait_time": rs["P"] / 1e6,
-        "use_teleop_in_autonomous": bool(rs.get("tia")),
     }
+    if not rs.get("inst_cfg"):
+        rns["control_loop_wait_time"] = rs["P"] / 1e6
+        rns["use_teleop_in_autonomous"] = bool(rs.get("tia"))
     for h in rs["hooks"]:
         if h == "robotPeriodic":
             def robotPeriodic(self):
@@ -592,6 +603,8 @@ def decode_robot(code):
         c = {"n": f"c{i}", "setup": bool(flags & 1), "en": bool(flags & 2), "dis": bool(flags & 4)}
         if rv == 2 and not nplain:
             c["sm"] = True  # this component is a magicbot StateMachine
+        elif rv == 1 and fbs_c:
+            c["fb_on_base"] = True
         c["resets"] = {(f"_r{j}" if (rv + j) % 3 == 0 else f"r{j}"): RESET_VALUES[(rv + j) % 5] for j in range(nres)}  # markers may be private names too
         c["base_resets"] = {f"b{j}": RESET_VALUES[(rv + 2 + j) % 5] for j in range(nbres)}
         if nres and (rv + flags) % 3 == 0:
@@ -609,7 +622,7 @@ def decode_robot(code):
         "P": PERIODS[p_c], "tia": tia, "hooks": [h for i, h in enumerate(HOOKS) if hooks_c >> i & 1],
         "nbase": min(nbase, len(comps)), "comps": comps,
         "rfbs": [fb for fb in (decode_fb(x, used) for x in rfbs_c) if fb],
-        "modes": [], "sel": None,
+        "modes": [], "sel": None, "inst_cfg": hooks_c % 4 == 1,
     }
     names = ["A", "B mode"]
     for i, d in enumerate(modes_c):
